@@ -29,8 +29,11 @@ def alg_cases(draw, tier, pairs=None, schemes=None, shapes=None, kinds=None, fla
     # one case in three: the algorithm INSTANCE first serves a renamed copy of the same dataset (same shape, same cost
     # matrix, other names) or an unrelated small dataset - whatever it remembers must not leak into the case's run
     prelude = draw(st.sampled_from([None, None, None, None, "renamed", "renamed", "other", "reordered", "reordered"]))
+    # the optional fourth argument of compute_consensus_rankings is public too ("may return additional information");
+    # every property of the result holds with it as well
+    bench = draw(st.sampled_from([False, False, False, True]))
     return {"config": name, "env": env, "scheme": scheme, "dataset": ds, "at_most_one": flag, "rng": rng,
-            "via_mutation": via, "prelude": prelude}
+            "via_mutation": via, "prelude": prelude, "bench_mode": bench}
 
 
 def build_dataset(case, warm=None):
@@ -84,7 +87,10 @@ def run_case(case):
             d = build_dataset(case, warm)
             random.seed(case.get("rng", 0))
             try:
-                cons = alg.compute_consensus_rankings(d, s, case["at_most_one"])
+                if case.get("bench_mode"):
+                    cons = alg.compute_consensus_rankings(d, s, case["at_most_one"], True)
+                else:
+                    cons = alg.compute_consensus_rankings(d, s, case["at_most_one"])
             except configs.REFUSALS as e:
                 return "refused", e, alg, d
             except configs.IncompatibleArgumentsException as e:
